@@ -63,8 +63,8 @@ theorem sendTests_ref {s s' : State τ} {e e' : Env} {n num : Nat}
       simp only [hb, bind, Except.bind] at h
       unfold Env.sendRun Env.send at h
       by_cases hbr : (e.flags.get n).broken = true
-      · simp [hbr] at h
-      · simp [hbr] at h
+      all_goals
+        simp [hbr] at h
         obtain ⟨rfl, rfl⟩ := h
         refine ⟨⟨⟨[.send n num true], ?_, ?_⟩, ⟨rfl, rfl, rfl⟩, ?_⟩, rfl⟩
         · simp [run, apply, view, hl, hemp, hbr, hg]
@@ -142,8 +142,8 @@ theorem stealOrShutdown_ref {s s' : State τ} {e e' : Env} {up : AList Nat (List
         have hl := lookup_of_mem hnd hmem
         unfold Env.sendSteal Env.send at hs2
         by_cases hbr : (e.flags.get victim).broken = true
-        · simp [hbr] at hs2
-        · simp [hbr] at hs2
+        all_goals
+          simp [hbr] at hs2
           subst hs2
           refine ⟨⟨[.steal victim (min (book.length / 2) (book.length - minPending))], ?_, ?_⟩,
             ⟨rfl, rfl, rfl⟩, rfl⟩
